@@ -187,10 +187,10 @@ def spec_eval(T, mode, pres, call, res, st):
 MASK_LAST = re.compile(r" set=\S+")
 
 
-def canon(line, call, T, mode):
+def canon(line, call, T, mode, st):
     """results that depend on the real /proc of the sandbox are not compared"""
     if call and mode == "os" and T is not None and T.this and line.startswith("R rc=0"):
-        if (call["cmd"] == "glcl" and not (call["flags"] & 2 and not call["flags"] & 1)) or call["cmd"] == "gplcl":
+        if (call["cmd"] == "glcl" and (st.get("getcpu_fail") or not (call["flags"] & 2 and not call["flags"] & 1))) or call["cmd"] == "gplcl":
             return MASK_LAST.sub(" set=*", line, 1)
     return line
 
@@ -219,6 +219,8 @@ class Evaluator:
                 continue
             if t[0] in ("src", "flags", "env", "filter", "os", "hookret", "mode", "destroy"):
                 state_lines.append(l)
+                if ci < len(cl) and cl[ci].startswith("config-error"):
+                    ci += 1      # a configuration the library refused: the topology falls back to the default source
                 if t[0] == "mode":
                     mode = t[1]
                     pres = int(t[2], 16) if mode == "hooks" else 0
@@ -228,6 +230,8 @@ class Evaluator:
                             run.cov.setdefault("drift", []).append("warm-up: %s / %s" % (cl[ci - 1], ml[ci - 1]))
                 if t[0] == "os" and t[1] == "mempol":
                     st["mempol"] = G.BS.parse(t[3])
+                if t[0] == "os" and t[1] == "ret" and t[2] in ("getcpu", "all"):
+                    st["getcpu_fail"] = int(t[3]) < 0
                 continue
             if t[0] == "load":
                 state_lines.append(l)
@@ -274,7 +278,7 @@ class Evaluator:
                       sample={"call": l, "impl": a, "model": b}, kind=("%s:%s" % (mode, call["cmd"])))
             for key, what in bad:
                 run.violation(key, what + "  [" + l + "]", replay)
-            if canon(a, call, T, mode) != canon(b, call, T, mode):
+            if canon(a, call, T, mode, st) != canon(b, call, T, mode, st):
                 if not bad:
                     run.violation("correspondence:%s:%s" % (mode, call["cmd"]),
                                   "model and implementation differ on `%s` (%s): impl=%r model=%r" % (l, tag, a, b), replay, no_input=True)
